@@ -85,13 +85,26 @@ def gen_function(rng, pg, name):
             d = pg.random_dim()
             params.append((p, Sym(d), "concrete"))
     terms = {p: s for p, s, _ in params}
+    # two further parameters that are only ever compared for (in)equality: their type needs no `Dim` bound
+    eq_pair = None
+    if rng.random() < 0.3:
+        e1, e2 = pg.fresh("q"), pg.fresh("q")
+        if len(free) < 3 and rng.random() < 0.7:
+            v = VARS[len(free)]
+            free.append(v)
+            sy, how = Sym({v: 1}), "free"
+        else:
+            sy, how = Sym(pg.random_dim()), "eqonly"
+        eq_pair = (e1, e2, rng.choice(["==", "!="]))
+        params.append((e1, sy, "free" if how == "free" else "eqonly"))
+        params.append((e2, sy, "eqfollow"))
 
     def expr(depth):
         """(text, Sym)"""
         r = rng.random()
         if depth <= 0 or r < 0.2:
             if rng.random() < 0.75:
-                p, s, _ = rng.choice(params)
+                p, s, _ = rng.choice([x for x in params if x[2] not in ("eqonly", "eqfollow") and not (eq_pair and x[0] in eq_pair[:2])])
                 return p, s
             d = pg.random_dim()
             return pg.literal(d).text, Sym(d)
@@ -113,7 +126,7 @@ def gen_function(rng, pg, name):
             return f"({a} {op} {a} * {c})", sa           # sum of equal-dimension terms
         if r < 0.85:
             a, sa = expr(depth - 1)
-            p, s, _ = rng.choice(params)
+            p, s, _ = rng.choice([x for x in params if not (eq_pair and x[0] in eq_pair[:2])])
             return f"(if {p} > {p} * 2 then {a} else {a} * 3)", sa
         a, sa = expr(depth - 1)
         c = rng.randrange(4)
@@ -150,7 +163,7 @@ def gen_function(rng, pg, name):
         body, res = f"({sr} * {body})", qs.mul(res)
         self_ref = p
     for p, s, how in params:
-        if p == self_ref:
+        if p == self_ref or how in ("eqonly", "eqfollow"):
             continue
         if how == "concrete":
             lit = pg.literal(s.d).text
@@ -161,9 +174,12 @@ def gen_function(rng, pg, name):
             base = f"abs({q})" if isinstance(k, Fraction) and k.denominator != 1 else q
             rel = f"{base}^{kt}" if k != 1 else q
             forcing.append(f"(({p} / {rel}) - ({p} / {rel}))")
-    text = f"fn {name}({', '.join(p for p, _, _ in params)}) = {body}"
     if forcing:
-        text += f" * (1 + {' + '.join(forcing)})"
+        body = f"{body} * (1 + {' + '.join(forcing)})"
+    if eq_pair:
+        e1, e2, op = eq_pair
+        body = f"(if {e1} {op} {e2} then {body} else ({body}) * 2)" if rng.random() < 0.7 else f"(if {e1} {op} {e2} && {e2} {op} {e1} then {body} else {body})"
+    text = f"fn {name}({', '.join(p for p, _, _ in params)}) = {body}"
     return text, [(p, s, how) for p, s, how in params], res, free
 
 
